@@ -92,7 +92,7 @@ PROPS = {
             E("atom", "e_atom.c", model="atom", quick=dict(cases=600), thorough=dict(cases=20000, seeds=4, chunk=200)),
         ],
         trusted_base=["atom layer only (hdf/src/atom.c); error stack and allocation failure not modelled"],
-        assumptions=["single-threaded; fewer than 2^32 nested HAinit_group calls per group"],
+        assumptions=["single-threaded; fewer than 2^32 nested HAinit_group calls per group; fewer than 2^28 HAregister_atom calls per group and process"],
     ),
     "C16": dict(
         lean_props=["H4.Props.C16"],
